@@ -304,6 +304,37 @@ def cached_functions():
     return rows
 
 
+def set_size_registration():
+    """Does cache.set_size register with `_cached` (the list reset() walks) every cache object it installs?
+    Returns True when set_size installs no new cache object at all."""
+    cm = _mod("cache.py")
+    fns = [n for n in cm.body if isinstance(n, ast.FunctionDef) and n.name == "set_size"]
+    if not fns:
+        return True                                   # no resizing: the caches of cache() are the only ones
+    if len(fns) != 1:
+        raise Cannot("cache.py: set_size defined twice")
+    fn = fns[0]
+    created = [n for n in ast.walk(fn) if isinstance(n, ast.Call) and isinstance(n.func, ast.Call)
+               and ast.unparse(n.func.func) in ("lru_cache", "functools.lru_cache")]
+    if not created:
+        if "lru_cache" in ast.unparse(fn):
+            raise Cannot("cache.py: set_size creates caches in a way that is not understood")
+        return True
+    # every created cache must be bound to a name and that name appended to _cached in the same block
+    for call in created:
+        owner = None
+        for blk in [n for n in ast.walk(fn) if hasattr(n, "body") and isinstance(n.body, list)]:
+            for st in blk.body:
+                if isinstance(st, ast.Assign) and st.value is call and len(st.targets) == 1 and isinstance(st.targets[0], ast.Name):
+                    owner = (blk, st.targets[0].id)
+        if owner is None:
+            return False                              # installed without being kept: cannot be registered
+        blk, name = owner
+        if not any(isinstance(st, ast.Expr) and ast.unparse(st.value) == f"_cached.append({name})" for st in blk.body):
+            return False
+    return True
+
+
 # ------------------------------------------------------------------ constraints.py: how a constraint given twice is merged
 
 def constraint_merges():
@@ -409,6 +440,9 @@ def generate():
     if r:
         L.append("Definition cached_functions : list (string * bool) := "
                  + core.coq_list([f"({cstr(a)}, {core.coq_bool(b)})" for a, b in r]) + ".")
+    r = guard(set_size_registration, "Definition set_size_registers : bool := false.", "cache.set_size")
+    if r is not None:
+        L.append("Definition set_size_registers : bool := " + core.coq_bool(bool(r)) + ".")
     r = guard(constraint_merges, "Definition constraint_merges : list (string * string * string) := [(\"unreadable\", \"\", \"\")].", "constraint merges")
     if r:
         L.append("Definition constraint_merges : list (string * string * string) := "
